@@ -7,11 +7,11 @@ def S(xs):
     return '{' + ', '.join('"%s"' % x for x in xs) + '}'
 
 
-def core(name, acts, maxn, adds, stack=0, und=0, rst=0, perm=3, invariants=True, **kw):
+def core(name, acts, maxn, adds, stack=0, und=0, rst=0, perm=3, invariants=True, probe=0, **kw):
     st = {
         'kind': 'gen_replay', 'name': name, 'module': 'Core', 'fam': 'core', 'spec': 'Spec', 'view': 'View',
         'constants': {'MaxN': maxn, 'MaxAdds': adds, 'MaxStack': stack, 'MaxUnd': und, 'MaxRst': rst,
-                      'Acts': S(acts), 'MaxPerm': perm},
+                      'Acts': S(acts), 'MaxPerm': perm, 'MaxProbe': probe},
         'invariants': ['TypeOK', 'RootCountOK', 'NodesOK'] if invariants else ['TypeOK'],
     }
     st.update(kw)
@@ -46,15 +46,16 @@ PLAN['C01'] = {
 # --------------------------------------------------------------------------- C02
 PLAN['C02'] = {
     'stages': lambda tier, seed: (
-        [core('core_prove', ['mod', 'prove'], 6, 3)] if tier == 'quick' else
+        [core('core_prove', ['mod', 'prove'], 6, 3),
+         core('core_prove_undo', ['mod', 'prove', 'undo'], 5, 2, stack=1, und=1, probe=1)] if tier == 'quick' else
         [core('core_prove', ['mod', 'prove'], 8, 4),
-         core('core_prove_undo', ['mod', 'prove', 'undo'], 6, 3, stack=1, und=1)]),
+         core('core_prove_undo', ['mod', 'prove', 'undo'], 6, 3, stack=1, und=1, probe=1)]),
     'rule': 'in every reachable state of spec/Core.tla TLC emits Prove(S, order) for every non-empty subset S of the live '
             'leaves (all permutations for |S|<=3, ascending/descending/rotated beyond) with the canonical proof '
             'CanonProof(S) and the tree set TreesOf(S) from spec/Forest.tla; the harness compares the output of '
             'Pollard.Prove, full MapPollard.Prove and partial MapPollard.Prove (when S is cached) for exact equality and '
             'gives the canonical proof to every verifier. Every emitted Prove is non-trivial; distinct by (state witness, order).',
-    'bounds': {'quick': 'n<=6, adds 0..3', 'thorough': 'n<=8, adds 0..4; plus states reached through an undo, n<=6'},
+    'bounds': {'quick': 'n<=6, adds 0..3; plus histories with one recorded query and one undo, n<=5, adds 0..2', 'thorough': 'n<=8, adds 0..4; plus histories with one recorded query and one undo, n<=6'},
     'exhaustive': {'quick': True, 'thorough': True},
     'assumptions': ['free term algebra for hashes', 'exhaustive only within the stated bounds'],
 }
@@ -63,9 +64,9 @@ PLAN['C02'] = {
 PLAN['C06'] = {
     'stages': lambda tier, seed: (
         [core('core_undo1', ['mod', 'undo'], 7, 3, stack=1, und=1),
-         core('core_undo2', ['mod', 'undo', 'prove'], 5, 2, stack=2, und=2)] if tier == 'quick' else
+         core('core_undo2', ['mod', 'undo', 'prove'], 5, 2, stack=2, und=2, probe=1)] if tier == 'quick' else
         [core('core_undo1', ['mod', 'undo'], 8, 4, stack=1, und=1),
-         core('core_undo2', ['mod', 'undo', 'prove'], 6, 3, stack=2, und=2),
+         core('core_undo2', ['mod', 'undo', 'prove'], 6, 3, stack=2, und=2, probe=1),
          core('core_undo3', ['mod', 'undo'], 6, 2, stack=3, und=3)]),
     'rule': 'spec/Core.tla with the undo stack in the state: from every reachable state every block is applied, undone '
             '(Pollard.Undo / MapPollard.Undo with the specification\'s canonical proof, deleted hashes and previous roots) '
@@ -427,4 +428,41 @@ PLAN['C13'] = {
     'assumptions': ['byte counts are judged on successful calls only (on a failing sink the property fixes only that an error is returned)',
                     'the wire format is not modelled byte by byte: content fidelity is covered through observational equality of the restored instance',
                     'free term algebra for hashes; exhaustive only within the stated bounds'],
+}
+
+
+# C14: the map forest's missing-position query on partial forests whose cache arises from blocks,
+# verification with remembering and pruning (stored set = anything between StoredLower and StoredUpper)
+_c14 = PLAN['C14']['stages']
+PLAN['C14']['stages'] = lambda tier, seed: (
+    _c14(tier, seed) +
+    ([partial('partial_missq', ['mod', 'vrem', 'prune', 'missq'], 5, 2)] if tier == 'quick' else
+     [partial('partial_missq', ['mod', 'vrem', 'prune', 'undo', 'missq'], 6, 3, stack=1, und=1)]))
+PLAN['C14']['rule'] += (' In addition spec/Partial.tla emits, in every reachable state (n, live, cached) of a partial forest, '
+                        'the query MissQ(B) for every non-empty set B of live leaves with the canonical proof positions of B; the '
+                        'positions MapPollard.GetMissingPositions reports must be exactly those the instance does not store '
+                        '(its Nodes are dumped), and VerifyPartialProof with the true hashes at those positions must accept and '
+                        'with a fresh hash must reject.')
+PLAN['C14']['bounds'] = {'quick': 'proof operations: n<=5, all states; partial forests: n<=5, adds 0..2',
+                         'thorough': 'proof operations: n<=7, all states; partial forests: n<=6, adds 0..3, undo depth 1'}
+
+
+# --------------------------------------------------------------------------- C15
+PLAN['C15'] = {
+    'stages': lambda tier, seed: (
+        [core('sched_bfs', ['mod'], 7, 3, fam='sched', trace_module='ScheduleTrace', x='maxtrace=6000', invariants=False)] if tier == 'quick' else
+        [core('sched_bfs', ['mod'], 9, 4, fam='sched', trace_module='ScheduleTrace', x='maxtrace=20000', invariants=False)]),
+    'rule': 'the block histories are the behaviours of spec/Core.tla (every deletion subset, 0..MaxAdds additions, from every '
+            'reachable state, each with its breadth-first witness history); the harness records every block of a history in a '
+            'CachingScheduleTracker - deletion targets are the canonical positions of the specification, i.e. what a prover emits - '
+            'and calls GenerateCachingSchedule for every memory limit 1..n+1, a huge one, and 1 again, on the same tracker, plus a '
+            'second tracker asked after every recorded block. Every output must satisfy the relation SchedOK of '
+            'spec/Schedule.tla (entries are slots created in that block and deleted later, strictly ascending, never more than '
+            'the limit alive at once, complete when the limit does not bind); a sample of the outputs and every failing one are '
+            'validated by TLC against spec/ScheduleTrace.tla, which also checks that the relation is satisfiable for that '
+            'history (R->T). Non-trivial: a history that deletes at least one leaf; distinct by (witness history, block).',
+    'bounds': {'quick': 'n<=7, adds 0..3, all deletion subsets, limits 1..n+1', 'thorough': 'n<=9, adds 0..4, all deletion subsets, limits 1..n+1'},
+    'exhaustive': {'quick': True, 'thorough': True},
+    'assumptions': ['histories are breadth-first witnesses plus one block (shortest histories to every state), not all histories of a given length',
+                    'deletion targets are given in ascending slot order'],
 }
